@@ -86,6 +86,7 @@ let site_str (s : Faults.fsite) = match s with
   | Faults.SFlip n -> Printf.sprintf "flip:%d" (int_of_n n)
   | Faults.SStmt (n, Syntax.SCall (_, Syntax.ANil)) -> Printf.sprintf "stmt:%d:call_without_actuals" (int_of_n n)
   | Faults.SStmt (n, _) -> Printf.sprintf "stmt:%d:other_callee" (int_of_n n)
+  | Faults.SRootAt (n, _, k) -> Printf.sprintf "aggregate_element:%d:%d" (int_of_n n) (int_of_n k)
 
 let coq_expr (e : Syntax.expr) : string = match e with
   | Syntax.EInt (i, v) -> Printf.sprintf "(EInt %d %d)" (int_of_n i) (int_of_n v)
@@ -100,6 +101,7 @@ let site_coq (s : Faults.fsite) = match s with
   | Faults.SDrop (n, port, x) -> Printf.sprintf "SDrop %d %b %d" (int_of_n n) port (int_of_n x)
   | Faults.SFlip n -> Printf.sprintf "SFlip %d" (int_of_n n)
   | Faults.SStmt (_, _) -> "?"
+  | Faults.SRootAt (_, _, _) -> "?"
 
 let rewrite_str (r : Rewrites.rewrite) = match r with
   | Rewrites.RSwap s -> Printf.sprintf "swap:%d" (int_of_n s)
@@ -187,15 +189,25 @@ let fclass_of_name s = Stdlib.List.find_opt (fun f -> fclass_name f = s) Faults.
    walk_program, lit_candidates, obj_candidates) and filtered with the extracted `eligible_at` on the phrase information
    of ONE walk of the program (the specification `eligible` walks the program again for every candidate). *)
 type fctx = { prog : Syntax.program; walk : Walk.pinfo list; roots : Walk.pinfo list; lits : Syntax.expr list; objs : Syntax.expr list;
-              subs : Syntax.expr list; m : BinNums.coq_N }
+              subs : Syntax.expr list; aggs : Walk.pinfo list; m : BinNums.coq_N }
 let make_fctx (p : Syntax.program) : fctx =
   let w = Walk.walk_program p in
   { prog = p; walk = w; subs = Faults.sub_candidates p;
+    aggs = Stdlib.List.filter (fun i -> match Faults.phrase_root i.Walk.pi_ph with Some (Syntax.EAgg (_, _)) -> true | _ -> false) w;
     roots = Stdlib.List.filter (fun i -> match Faults.phrase_root i.Walk.pi_ph with Some _ -> true | None -> false) w;
     lits = Faults.lit_candidates p; objs = Faults.obj_candidates p; m = Walk.max_nid p }
 let rec args_len = function Syntax.ANil -> 0 | Syntax.ACons (_, _, r) -> 1 + args_len r
 let phrase_candidate (c : fctx) (f : Faults.fclass) : (Faults.fsite * Walk.pinfo) option =
   match f with
+  | Faults.FWrongLiteral when rand 2 = 0 && c.aggs <> [] ->
+    (* one element of an aggregate, at any depth *)
+    (match pick c.aggs with
+     | Some i -> (match pick (Faults.agg_candidates c.lits i) with Some st -> Some (st, i) | None -> None)
+     | None -> None)
+  | Faults.FWrongObject when rand 2 = 0 && c.aggs <> [] ->
+    (match pick c.aggs with
+     | Some i -> (match pick (Faults.agg_candidates c.objs i) with Some st -> Some (st, i) | None -> None)
+     | None -> None)
   | Faults.FWrongLiteral ->
     (match pick c.roots, pick c.lits with Some i, Some e -> Some (Faults.SRoot (i.Walk.pi_id, e), i) | _ -> None)
   | Faults.FWrongObject ->
